@@ -100,6 +100,10 @@ class Interp:
         self.obligations = []
         self.unmodelled = {}
         self.uninterpreted = {}
+        # GSC (shortcuts agree with the general path under their own condition) was built and calibrated: on the pinned
+        # tree it decides 45 sites and cannot decide 76 (loop-carried values); a "not provably equal" verdict on precise
+        # terms is not a proof of difference, so arming it would trade misses for false alarms.  Kept, not armed.
+        self.gsc_enabled = bool(__import__("os").environ.get("OHSA_GSC"))
         self.assumptions = {}
         self.lemma_uses = {}
         self.entry = None
@@ -940,7 +944,22 @@ class Interp:
                             results.extend(self.run_block(els["stmts"], els.get("tail"), s3, fr))
                 return
             # expr / semi
-            for (s2, v, c) in self.ev(stmt["e"], s, fr):
+            outs_i = self.ev(stmt["e"], s, fr)
+            if self.gsc_enabled and stmt["e"].get("k") == "if" and stmt["e"].get("else") is None and fr.fn is not None \
+                    and fr.fn.get("body") is not None and fr.fn["body"].get("stmts") is stmts and not getattr(fr, "in_shadow", False):
+                # guards (an early None / Err) are rejections, not shortcuts: only success-like early returns are compared
+                rets = [(s2, v) for (s2, v, c) in outs_i if c == "ret"
+                        and not (isinstance(v, VEnum) and v.variant in ("None", "Err"))]
+                if rets and len(rets) <= 2:
+                    for (s2, v) in rets:
+                        fr.in_shadow = True
+                        try:
+                            general = self._quiet(lambda: self.run_block(stmts[i + 1:], tail, s2.copy(), fr))
+                        finally:
+                            fr.in_shadow = False
+                        if general is not None:
+                            self.gsc_compare(fr, stmt["e"], "early return", (s2, v), general)
+            for (s2, v, c) in outs_i:
                 if c is not None:
                     results.append((s2, v, c))
                 else:
@@ -971,13 +990,37 @@ class Interp:
             f = cv.f if isinstance(cv, VBool) else ("unk", ("if", e["sp"]))
             yes, no = self.branch(s, f)
             for s1 in yes:
-                out.extend(self.ev(e["then"], s1, fr))
+                then_outs = self.ev(e["then"], s1, fr)
+                out.extend(then_outs)
+                if self.gsc_enabled and e.get("else") is not None and self._trivial_branch(e["then"]) \
+                        and not getattr(fr, "in_shadow", False) and len(then_outs) == 1 and then_outs[0][2] is None \
+                        and not (isinstance(then_outs[0][1], VEnum) and then_outs[0][1].variant in ("None", "Err")):
+                    fr.in_shadow = True
+                    try:
+                        general = self._quiet(lambda: self.ev(e["else"], s1.copy(), fr))
+                    finally:
+                        fr.in_shadow = False
+                    if general is not None:
+                        self.gsc_compare(fr, e, "if/else", (then_outs[0][0], then_outs[0][1]), general)
             for s1 in no:
                 if e.get("else") is not None:
                     out.extend(self.ev(e["else"], s1, fr))
                 else:
                     out.append((s1, UNIT, None))
         return out
+
+    def _trivial_branch(self, b):
+        """A branch that computes nothing: an empty constructor, a constant, a path (possibly cloned)."""
+        while b.get("k") == "block" and not b.get("stmts") and b.get("tail") is not None:
+            b = b["tail"]
+        k = b.get("k")
+        if k in ("lit", "path"):
+            return True
+        if k == "call" and not b.get("args") and b.get("callee") is not None:
+            return b["callee"]["name"] in ("empty", "new", "default")
+        if k == "call" and b.get("callee") is not None and b["callee"]["name"] == "clone" and len(b.get("args") or []) == 1:
+            return self._trivial_branch(b["args"][0])
+        return False
 
     def ev_match(self, e, st, fr):
         src = e["src"]
@@ -1128,6 +1171,102 @@ class Interp:
                 except Exception:
                     pass
         return [(st, VTop("unmodelled " + d), None)]
+
+    # ------------------------------------------------------------------ GSC: fast paths agree with the general path
+    def _quiet(self, thunk):
+        """Run a shadow evaluation: no obligation, assumption, lemma or unmodelled-call record survives; None on failure."""
+        n_ob = len(self.obligations)
+        saved = (dict(self.unmodelled), dict(self.lemma_uses), dict(self.assumptions), dict(self.entry_unmodelled),
+                 dict(self.stats), list(self.loop_info))
+        try:
+            res = thunk()
+            failed = any(o.status == "failed" for o in self.obligations[n_ob:])
+            return None if failed else res
+        except Exception:
+            return None
+        finally:
+            del self.obligations[n_ob:]
+            self.unmodelled, self.lemma_uses, self.assumptions, self.entry_unmodelled = saved[0], saved[1], saved[2], saved[3]
+            self.stats = saved[4]
+            self.loop_info[:] = saved[5]
+
+    def _same(self, st, a, b, depth=0):
+        """Provably equal abstract values (None: not comparable / summarised values involved)."""
+        import spec_checks
+        while isinstance(a, VMutRef):
+            a = self.read_place(st, a.place)
+        while isinstance(b, VMutRef):
+            b = self.read_place(st, b.place)
+        if isinstance(a, VSeq) and isinstance(b, VSeq):
+            if spec_checks.imprecise(a.t) or spec_checks.imprecise(b.t):
+                return None
+            if terms_equal(st, a.t, b.t):
+                return True
+            if st.eq(t_len(a.t), 0) and st.eq(t_len(b.t), 0):
+                return True
+            return False
+        if isinstance(a, VNat) and isinstance(b, VNat):
+            if spec_checks.imprecise(a.p) or spec_checks.imprecise(b.p):
+                return None
+            return st.eq(a.p, b.p)
+        if isinstance(a, VRec) and isinstance(b, VRec) and a.ty == b.ty and set(a.f) == set(b.f):
+            rs = [self._same(st, a.f[k], b.f[k], depth + 1) for k in a.f]
+        elif isinstance(a, VTup) and isinstance(b, VTup) and len(a.items) == len(b.items):
+            rs = [self._same(st, x, y, depth + 1) for x, y in zip(a.items, b.items)]
+        elif isinstance(a, VEnum) and isinstance(b, VEnum):
+            if a.variant != b.variant or len(a.payload) != len(b.payload):
+                return False
+            rs = [self._same(st, x, y, depth + 1) for x, y in zip(a.payload, b.payload)]
+        elif isinstance(a, VUnit) and isinstance(b, VUnit):
+            return True
+        elif isinstance(a, VBool) and isinstance(b, VBool):
+            if a.f == b.f:
+                return True
+            both = not self.assume(st.copy(), f_and(a.f, f_not(b.f))) and not self.assume(st.copy(), f_and(b.f, f_not(a.f)))
+            return True if both else None
+        elif isinstance(a, VUser) and isinstance(b, VUser):
+            return True if a.key == b.key else None
+        else:
+            return None
+        if any(r is False for r in rs):
+            return False
+        if any(r is None for r in rs):
+            return None
+        return True
+
+    def gsc_compare(self, fr, node, what, fast, general):
+        """fast: (state, value) of the shortcut; general: outcomes [(state, value, ctl)] of the general computation
+        under the shortcut's condition.  Every feasible general outcome must produce the shortcut's value and leave the
+        places reachable through the frame's mutable references in the same state."""
+        s_f, v_f = fast
+        verdicts = []
+        for (s_g, v_g, ctl) in general:
+            if ctl not in (None, "ret"):
+                return
+            if s_g.infeasible() or (self.saturate_empty(s_g) and s_g.infeasible()):
+                continue
+            r = self._same(s_g, v_f, v_g)
+            if r is True:
+                for key, val in list(s_f.env.items()):
+                    if key[0] == fr.id and isinstance(val, VMutRef):
+                        try:
+                            r2 = self._same(s_g, self.read_place(s_f, val.place), self.read_place(s_g, val.place))
+                        except Exception:
+                            r2 = None
+                        if r2 is not True:
+                            r = r2
+                            break
+            verdicts.append((r, s_g, v_g))
+        if not verdicts:
+            return
+        if any(r is None for (r, _, _) in verdicts):
+            return      # summarised values on one side: agreement can be neither shown nor refuted (76 such sites on
+                        # the pinned tree): no verdict
+        bad = [x for x in verdicts if x[0] is False]
+        ok = not bad
+        goal = "shortcut value " + repr(v_f)[:140] + (" ≡ general path" if ok else "  vs general path " + repr(bad[0][2])[:200])
+        self.oblige("ENS", fr, node, "GSC " + what + ": a shortcut returns what the general computation would return under the same condition",
+                    goal, ok, "shadow-path" if ok else "", detail="" if ok else self.describe(bad[0][1]))
 
     ORDER_INSENSITIVE = {"max", "sum", "len", "is_empty", "fill", "empty", "arange"}
 
